@@ -195,7 +195,7 @@ fn extreme_midpoint_histories(ctx: &mut Ctx, ty: &Ty, reps: usize, always_split:
         let neg_all = ctx.rng.gen::<bool>();
         let sg = |x: u64| if neg_all { gen::neg(n, x) } else { x };
         let mut steps = vec![Step { op: "q_add", sp: "pp", x: vec![sg(a), b], bs: vec![] }];
-        if t2.abs() <= maxs && r % 3 != 0 {
+        if t2.abs() <= maxs && ctx.rng.gen_range(0..4) != 0 {
             steps.push(Step { op: if ctx.rng.gen::<bool>() { "q_add" } else { "q_sub" }, sp: "pp", x: vec![gen::from_scale(n, es, t1, 0), gen::from_scale(n, es, t2, 0)], bs: vec![] });
         }
         ctx.sink.boundary();
